@@ -46,6 +46,9 @@ argument counts (findings_proposed/C51.md):
   was reported as ``changed-although-no-rule-matches``; yielded pairs are now
   collected one by one so that the rewrite result is attributed to the spurious
   match it came from.
+* During calibration the lead committed the END guard to /repo (897c9b5) and
+  recorded the flattening behaviour in known_findings.json; the two IndexError
+  entries of PENDING no longer fire on the current tree.
 * Terms are rebuilt with fresh tuple objects (``_fresh``) so that a repeated
   variable is decided by equality, not identity, of the bound subterms.
 """
